@@ -5,11 +5,14 @@ log = open(sys.argv[1]).read().splitlines()
 rows = []
 det = miss = 0
 MISSED_WHY = {
- 'C16-3': 'the change is in the in-memory example lister (request-example.go), which is not under contract',
- 'C17-3': 'FileMode.String of the internal codec is not under contract (needs a model of indexed writes into a local byte array compared as a string)',
- 'C17-4': 'the change rounds a time.Time before taking its seconds: pinning the provenance of a foreign struct value needs a ghost of that type, which the contract language cannot declare',
- 'C06-6': 'pointer aliasing between loop iterations (all decoded entries point at one hoisted variable): needs a per-iteration freshness fact about pointers already stored in a slice, which the loop-cut encoding does not provide',
+ 'C16-3': 'the change is in the directory model of the in-memory example handler (symlink resolution in root.readdir), which is an example file system, not the listing protocol',
+ 'C16-7': 'the change is in the directory model of the in-memory example handler (re-keying in root.rename), which is an example file system, not the listing protocol',
 }
+def key(l):
+    m = re.match(r'^(C\d\d)-(\d+) ', l)
+    return (m.group(1), int(m.group(2))) if m else ('Z', 0)
+log = sorted([l for l in log if re.match(r'^C\d\d-\d+ ', l)], key=key)
+replayed = 0
 for l in log:
     m = re.match(r'^(C\d\d-\d+) (DETECTED|missed|\?) :: (.*)$', l)
     if not m:
@@ -23,14 +26,19 @@ for l in log:
     summ = meta.get('summary', '').replace('|', '\\|').replace('\n', ' ')
     if len(summ) > 230:
         summ = summ[:227] + '...'
+    rnd = (int(sid.split('-')[1]) - 1) // 3 + 1
     if st == 'DETECTED':
         det += 1
-        rows.append('| %s | %s | detected: `%s` |' % (sid, summ, obl))
+        how = ''
+        if 'no-failing-input-found' not in rest.split('|')[0]:
+            replayed += 1
+            how = ' (input replayed on the real code)'
+        rows.append('| %s | %d | %s | detected: `%s`%s |' % (sid, rnd, summ, obl, how))
     else:
         miss += 1
-        rows.append('| %s | %s | **missed**: %s |' % (sid, summ, MISSED_WHY.get(sid, 'see text')))
-table = ['%d seeded changes, %d detected by the registered quick check of their property, %d missed.' % (det + miss, det, miss), '',
-         '| seed | change | result (first failing obligation) |', '|------|--------|------------------------------------|'] + rows
+        rows.append('| %s | %d | %s | **missed**: %s |' % (sid, rnd, summ, MISSED_WHY.get(sid, 'see text')))
+table = ['%d seeded changes, %d detected by the registered quick check of their property (%d of them with a failing input replayed on the real code), %d missed.' % (det + miss, det, replayed, miss), '',
+         '| seed | round | change | result (first failing obligation) |', '|------|-------|--------|------------------------------------|'] + rows
 s = open('/verif/DESIGN.md').read()
 i = s.index('<!-- SEEDTABLE -->')
 s = s[:i] + '<!-- SEEDTABLE -->\n\n' + '\n'.join(table) + '\n'
